@@ -181,6 +181,14 @@ func (c05Driver) Generate(t *tape.Tape, tier string) core.Case {
 	}
 	if name := addOlderRevisionInc(rt, g.S, den, false, rt.Sub("includes").Chance(1, 4), rt.Sub("keep-augments").Chance(1, 2)); name != "" {
 		c.Injected = append(c.Injected, "two-revisions-of-"+name)
+		if c.Mode == "yangentry" {
+			// a second module in two revisions: the two revisions of the first
+			// may then differ in whether they pin the second one by date
+			rt2 := t.Sub("revisions2")
+			if name2 := addOlderRevisionInc(rt2, g.S, 2, false, false); name2 != "" {
+				c.Injected = append(c.Injected, "two-revisions-of-"+name2)
+			}
+		}
 	}
 	// order trap: two different modules declare the same namespace (every
 	// namespace-to-module lookup then fails, with one and the same message)
@@ -238,6 +246,23 @@ func (c05Driver) Generate(t *tape.Tape, tier string) core.Case {
 		}
 		if len(c.EntryRoots) == 0 {
 			c.EntryRoots = []string{names[et.Intn(len(names))]}
+		}
+		// with two modules in two revisions: everything is named except the
+		// files of the second one, which its importers (among them both
+		// revisions of the first) then fetch, pinned or not
+		var two []string
+		for _, inj := range c.Injected {
+			if strings.HasPrefix(inj, "two-revisions-of-") {
+				two = append(two, strings.TrimPrefix(inj, "two-revisions-of-"))
+			}
+		}
+		if len(two) == 2 && et.Chance(2, 3) {
+			c.EntryRoots = nil
+			for _, n := range names {
+				if moduleOfFile(n) != two[1] {
+					c.EntryRoots = append(c.EntryRoots, n)
+				}
+			}
 		}
 	}
 	if c.Mode == "cli" {
